@@ -12,9 +12,12 @@ def model(ctx, thorough):
     if thorough:
         cfgs += [dict(Callers="{1, 2, 3}", MaxMsgs=1, CapMsg=1, CapActive=2, CapComplete=1, CapOp=2, TermResponds="TRUE"),
                  dict(Callers="{1, 2}", MaxMsgs=2, CapMsg=1, CapActive=1, CapComplete=2, CapOp=1, TermResponds="FALSE")]
+    # a terminal that never reads and never disconnects: the writer is stuck in its first command write for ever; every caller
+    # still returns (the caller's own deadline, commit c4130fb; with Protocol "fixed" TLC refutes Returns here)
+    cfgs.append(dict(Callers="{1, 2}", MaxMsgs=1, CapMsg=2, CapActive=1, CapComplete=1, CapOp=2, TermResponds="FALSE", TermReads="FALSE", TermCloses="FALSE"))
     for c in cfgs:
-        consts = dict(c); consts["Protocol"] = '"fixed"'; consts.setdefault("SerialMod", 4); consts["Identity"] = "TRUE"
-        ctx.tlc("MC_Conn", constants=consts, workers=14, heap="10g", timeout=3000, name="MC_Conn_fixed_%s" % json.dumps(c, sort_keys=True))
+        consts = dict(c); consts["Protocol"] = '"fixed2"'; consts.setdefault("SerialMod", 4); consts["Identity"] = "TRUE"
+        ctx.tlc("MC_Conn", constants=consts, workers=14, heap="10g", timeout=3000, name="MC_Conn_fixed2_%s" % json.dumps(c, sort_keys=True))
 
 
 def check(ctx):
